@@ -3,7 +3,7 @@
 # Like try_mutant.sh, but never touches /repo or /verif/evidence: keeps a scratch worktree of
 # /repo HEAD and a copy of the harness under /tmp/dtr-try (created on first use, re-synced on
 # every call). Remove with: tools/try_isolated.sh --clean
-ST=/tmp/dtr-try
+ST=${ST:-/tmp/dtr-try}
 if [ "${1:-}" = "--clean" ]; then git -C /repo worktree remove --force "$ST/repo" 2>/dev/null; rm -rf "$ST"; exit 0; fi
 patch="$1"; tier="$2"; shift 2
 if [ ! -d "$ST/repo" ]; then
